@@ -31,6 +31,11 @@ def curated():
     S.append(("dup-delete-orig", [CREATE(4), PUT(0, 5), DUPDD(3, 0), DELDD(0), CHECKALL(), GET(3), CLOSE(), OPEN(DFACC_READ), CHECKALL(), GET(3), CLOSE()]))
     return S
 
+def wrapped():
+    # reference counter at its maximum (an object with ref 65535) and refs out of ascending order in the directory
+    return ("wrapped-newref", [CREATE(4), PUT(0, 2), PUT(1, 2), PUT(2, 2), HNEWREF(), NEWREF(0), DELDD(1), HNEWREF(), CHECKALL(), CLOSE(), OPEN(DFACC_RDWR), HNEWREF(), CHECKALL(), CLOSE()],
+            "#define H4V_TAGS {1000, 1000, 1001, 1000}\n#define H4V_REFS {3, 2, 65535, 9}")
+
 def random_skeleton(rng):
     ops = [CREATE(rng.choice([4, 5, 16]))]
     live = set()
@@ -55,6 +60,8 @@ def random_skeleton(rng):
 
 def plan(ctx, tier, seed):
     hs = [scenario("C12.S1." + nm, "C12", ops) for nm, ops in curated()]
+    nm, ops, extra = wrapped()
+    hs.append(scenario("C12.S1." + nm, "C12", ops, extra=extra))
     rng = random.Random(1200 + seed)
     for i in range(4 if tier == "quick" else 60):
         hs.append(scenario("C12.S1.rand%d" % i, "C12", random_skeleton(rng), group="C12.S1.rand"))
